@@ -256,7 +256,7 @@ pub fn c12_t_t3g_33<S: Src>(s: &mut S) {
     t3_body(s, [3, 3, 0, 0], None, 2, 3)
 }
 
-harnesses! { k;
+harnesses! { k, "sel_c12.rs";
     #[kani::stub(f64::sin, libm_models::sin_sym)]
     #[kani::stub(f64::cos, libm_models::cos_sym)]
     c12_q_t1_identity;
